@@ -171,23 +171,24 @@ def expectedFrom : Nat → List Int → List PRec → List Rec
 
 def expected (times : List Int) (recs : List PRec) : List Rec := expectedFrom 0 times recs
 
-theorem map_recOfV2_specRecsV2 (f : FrameV2) (hb : f.baseOffset = 0) (now : Int) (i : Nat) (rs : List PRec) :
+theorem map_recOfV2_specRecsV2 (f : FrameV2) (hb : f.baseOffset = 0) (hl : logAppend f.attributes = false) (now : Int)
+    (i : Nat) (rs : List PRec) :
     (specRecsV2 now f.firstTs i rs).map (recOfV2 f) = expectedFrom i (rs.map (effTime now)) rs := by
   induction rs generalizing i with
   | nil => rfl
   | cons r rs ih =>
     simp only [specRecsV2, List.map_cons, expectedFrom, ih]
-    simp [recOfV2, specRec, hb]
+    simp [recOfV2, recOfV2c, stamp, hl, specRec, hb]
     omega
 
-theorem map_recOfV2_specRecsLegacy (f : FrameV2) (hb : f.baseOffset = 0) (base : Int)
+theorem map_recOfV2_specRecsLegacy (f : FrameV2) (hb : f.baseOffset = 0) (hl : logAppend f.attributes = false) (base : Int)
     (hf : f.firstTs = timestampOf base) (i : Nat) (rs : List PRec) :
     (specRecsLegacy tsDelta base i rs).map (recOfV2 f) = expectedFrom i (rs.map (fun r => timestampOf r.time)) rs := by
   induction rs generalizing i with
   | nil => rfl
   | cons r rs ih =>
     simp only [specRecsLegacy, List.map_cons, expectedFrom, ih]
-    simp [recOfV2, specRec, hb, hf, tsDelta]
+    simp [recOfV2, recOfV2c, stamp, hl, specRec, hb, hf, tsDelta]
     omega
 
 /-! ### protocol writeToVersion2 -/
@@ -217,7 +218,8 @@ theorem flatten_plain_batch (c : Crcs) (dec : Int → Bytes → Option Bytes) (f
   simp [flattenEntry, hcodec, hp, hc, decodeRecs_encRecs]
 
 theorem writeV2_spec (crc : Bytes → Nat) (hcrc : ∀ b, crc b < M32) (attrs now : Int) (recs : List PRec)
-    (hne : recs ≠ []) (hwf : (frameOfV2 attrs now recs).WF) (hcodec : codecOf attrs = 0) :
+    (hne : recs ≠ []) (hwf : (frameOfV2 attrs now recs).WF) (hcodec : codecOf attrs = 0)
+    (hlog : logAppend attrs = false) :
     ∃ bytes f, writeV2 crc attrs now recs = some bytes ∧
       readFrame crc bytes = some (f, []) ∧ f.baseOffset = 0 ∧ f.count = recs.length ∧
       f.lastOffsetDelta = (recs.length : Int) - 1 ∧
@@ -231,7 +233,7 @@ theorem writeV2_spec (crc : Bytes → Nat) (hcrc : ∀ b, crc b < M32) (attrs no
     have hc : (frameOfV2 attrs now recs).count = ((specRecsV2 now (firstTime now recs) 0 recs).length : Int) := by
       rw [specRecsV2_length]; rfl
     rw [flatten_plain_batch _ _ _ _ hcodec hp hc]
-    have := map_recOfV2_specRecsV2 (frameOfV2 attrs now recs) rfl now 0 recs
+    have := map_recOfV2_specRecsV2 (frameOfV2 attrs now recs) rfl hlog now 0 recs
     simp only [frameOfV2] at this ⊢
     rw [this]; rfl
 
@@ -281,7 +283,7 @@ theorem legacyBatch_spec (crc : Bytes → Nat) (hcrc : ∀ b, crc b < M32) (recs
       rw [specRecsLegacy_length]; rfl
     have hcodec : codecOf (legacyFrame recs).attributes = 0 := by simp [legacyFrame, codecOf]
     rw [flatten_plain_batch _ _ _ _ hcodec hp hc]
-    have := map_recOfV2_specRecsLegacy (legacyFrame recs) rfl (baseTime recs) rfl 0 recs
+    have := map_recOfV2_specRecsLegacy (legacyFrame recs) rfl (show logAppend 0 = false by decide) (baseTime recs) rfl 0 recs
     rw [this]
     rfl
 
@@ -345,7 +347,7 @@ and decoding gives exactly the given records (offsets 0..n-1, ms timestamps) -/
 theorem writeV2C_spec (crc : Bytes → Nat) (hcrc : ∀ b, crc b < M32) (comp : Bytes → Bytes)
     (dec : Int → Bytes → Option Bytes) (attrs now : Int) (recs : List PRec)
     (hne : recs ≠ []) (hwf : (frameOfV2C comp attrs now recs).WF) (hcodec : codecOf attrs ≠ 0)
-    (hdec : ∀ p, dec (codecOf attrs) (comp p) = some p) :
+    (hlog : logAppend attrs = false) (hdec : ∀ p, dec (codecOf attrs) (comp p) = some p) :
     ∃ bytes f, writeV2C crc comp attrs now recs = some bytes ∧
       readFrame crc bytes = some (f, []) ∧ f.baseOffset = 0 ∧ f.count = recs.length ∧
       f.lastOffsetDelta = (recs.length : Int) - 1 ∧
@@ -360,7 +362,7 @@ theorem writeV2C_spec (crc : Bytes → Nat) (hcrc : ∀ b, crc b < M32) (comp : 
     have hc : (frameOfV2C comp attrs now recs).count = ((specRecsV2 now (firstTime now recs) 0 recs).length : Int) := by
       rw [specRecsV2_length]; rfl
     rw [flatten_compressed_batch _ _ _ _ hcodec hp hc]
-    have := map_recOfV2_specRecsV2 (frameOfV2C comp attrs now recs) rfl now 0 recs
+    have := map_recOfV2_specRecsV2 (frameOfV2C comp attrs now recs) rfl hlog now 0 recs
     simp only [frameOfV2C, frameOfV2] at this ⊢
     rw [this]; rfl
 
@@ -382,7 +384,7 @@ theorem legacyBatchC_eq (crc : Bytes → Nat) (comp : Bytes → Bytes) (code : I
 theorem legacyBatchC_spec (crc : Bytes → Nat) (hcrc : ∀ b, crc b < M32) (comp : Bytes → Bytes)
     (dec : Int → Bytes → Option Bytes) (code : Int) (recs : List PRec)
     (hne : recs ≠ []) (hwf : (legacyFrameC comp code recs).WF) (hcodec : codecOf code ≠ 0)
-    (hdec : ∀ p, dec (codecOf code) (comp p) = some p) :
+    (hlog : logAppend code = false) (hdec : ∀ p, dec (codecOf code) (comp p) = some p) :
     ∃ f, readFrame crc (legacyBatchC crc comp code recs) = some (f, []) ∧ f.baseOffset = 0 ∧ f.count = recs.length ∧
       f.lastOffsetDelta = (recs.length : Int) - 1 ∧
       flattenEntry ⟨crc, crc⟩ dec (.batch f) =
@@ -398,7 +400,7 @@ theorem legacyBatchC_spec (crc : Bytes → Nat) (hcrc : ∀ b, crc b < M32) (com
     have hc : (legacyFrameC comp code recs).count = ((specRecsLegacy tsDelta (baseTime recs) 0 recs).length : Int) := by
       rw [specRecsLegacy_length]; rfl
     rw [flatten_compressed_batch _ _ _ _ hcodec hp hc]
-    have := map_recOfV2_specRecsLegacy (legacyFrameC comp code recs) rfl (baseTime recs) rfl 0 recs
+    have := map_recOfV2_specRecsLegacy (legacyFrameC comp code recs) rfl hlog (baseTime recs) rfl 0 recs
     rw [this]
     rfl
 
